@@ -92,17 +92,32 @@ func genSuggestUser(r *RNG, common []string) *sCase {
 	nmod := r.Intn(3)
 	mods := []string{"Mixa", "Mixb"}[:nmod]
 	var moduleFunctions []string // def self.x of a module: answered by the module only
+	// ancestors may live in another namespace than the class: mixins inside
+	// `module Drawing` (named Drawing::Mixa), the lower part of the chain inside
+	// `module Geo` with the superclass at top level
+	modNs := ""
+	if nmod > 0 && r.Chance(1, 3) {
+		modNs = "Drawing::"
+	}
 	for _, m := range mods {
-		emit("module " + m)
-		def("  ", strings.ToLower(m)+"_m")
+		ind := ""
+		if modNs != "" {
+			emit("module Drawing")
+			ind = "  "
+		}
+		emit(ind + "module " + m)
+		def(ind+"  ", strings.ToLower(m)+"_m")
 		if r.Bool() {
 			n := strings.ToLower(m) + "_modfn"
-			emit("  def self." + n)
-			emit("    1")
-			emit("  end")
+			emit(ind + "  def self." + n)
+			emit(ind + "    1")
+			emit(ind + "  end")
 			moduleFunctions = append(moduleFunctions, n)
 		}
-		emit("end")
+		emit(ind + "end")
+		if modNs != "" {
+			emit("end")
+		}
 	}
 	names := []string{"Alpha", "Beta", "Gamma", "Delta"}
 	depth := 1 + r.Intn(4)
@@ -113,6 +128,16 @@ func genSuggestUser(r *RNG, common []string) *sCase {
 		prot, statics []string
 	}
 	var chain []cinfo
+	nsFrom := depth // classes from this index on live in module Geo
+	if r.Chance(1, 3) {
+		nsFrom = r.Intn(depth)
+	}
+	qual := func(i int) string {
+		if i >= nsFrom {
+			return "Geo::" + names[i]
+		}
+		return names[i]
+	}
 	for i := 0; i < depth; i++ {
 		c := cinfo{name: names[i]}
 		l := strings.ToLower(c.name)
@@ -120,23 +145,26 @@ func genSuggestUser(r *RNG, common []string) *sCase {
 		if i > 0 {
 			head += " < " + names[i-1]
 		}
+		if i >= nsFrom {
+			emit("module Geo")
+		}
 		emit(head)
 		for _, m := range mods {
 			switch r.Intn(8) {
 			case 0, 1:
-				emit("  include " + m)
+				emit("  include " + modNs + m)
 				c.inc = append(c.inc, m)
 			case 2:
-				emit("  extend " + m)
+				emit("  extend " + modNs + m)
 				c.ext = append(c.ext, m)
 			case 3:
 				// both, in either order
 				if r.Bool() {
-					emit("  include " + m)
-					emit("  extend " + m)
+					emit("  include " + modNs + m)
+					emit("  extend " + modNs + m)
 				} else {
-					emit("  extend " + m)
-					emit("  include " + m)
+					emit("  extend " + modNs + m)
+					emit("  include " + modNs + m)
 				}
 				c.inc = append(c.inc, m)
 				c.ext = append(c.ext, m)
@@ -162,6 +190,16 @@ func genSuggestUser(r *RNG, common []string) *sCase {
 			emit("  private")
 			def("  ", l+"_p")
 			c.priv = append(c.priv, l+"_p")
+			if r.Chance(1, 3) {
+				// a singleton block inside the private section: its methods are
+				// public class methods, and the section goes on after it
+				emit("  class << self")
+				def("    ", l+"_meta")
+				emit("  end")
+				c.statics = append(c.statics, l+"_meta")
+				def("  ", l+"_p2")
+				c.priv = append(c.priv, l+"_p2")
+			}
 		}
 		if r.Bool() {
 			emit("  protected")
@@ -169,6 +207,9 @@ func genSuggestUser(r *RNG, common []string) *sCase {
 			c.prot = append(c.prot, l+"_q")
 		}
 		emit("end")
+		if i >= nsFrom {
+			emit("end")
+		}
 		chain = append(chain, c)
 	}
 	// an unrelated class
@@ -179,12 +220,13 @@ func genSuggestUser(r *RNG, common []string) *sCase {
 	emit("  end")
 	ti := r.Intn(depth)
 	target := chain[ti]
+	targetRef := qual(ti)
 	// the unrelated class also PRODUCES instances of the target class
 	emit("  def self.stranger_make")
-	emit("    " + target.name + ".new")
+	emit("    " + targetRef + ".new")
 	emit("  end")
 	emit("  def stranger_produce")
-	emit("    " + target.name + ".new")
+	emit("    " + targetRef + ".new")
 	emit("  end")
 	emit("  private")
 	def("  ", "stranger_p")
@@ -240,7 +282,7 @@ func genSuggestUser(r *RNG, common []string) *sCase {
 			emit("obj = Stranger.new.stranger_produce")
 			sc.Kind = "user-instance-from-foreign-method"
 		default:
-			emit("obj = " + target.name + ".new")
+			emit("obj = " + targetRef + ".new")
 		}
 		sc.Recv = "obj"
 		sc.Must = instNames
@@ -249,7 +291,7 @@ func genSuggestUser(r *RNG, common []string) *sCase {
 		sc.UpperValue = true
 	} else {
 		sc.Kind = "user-class"
-		sc.Recv = target.name
+		sc.Recv = targetRef
 		sc.Must = append(staticNames, "new")
 		sc.MustNot = append(append([]string{"stranger_i", "stranger_s", "stranger_p", "stranger_make", "stranger_produce"}, below...), minus(instNames, staticNames)...)
 		sc.MustNot = append(sc.MustNot, moduleFunctions...)
@@ -275,6 +317,15 @@ func genSuggestUser(r *RNG, common []string) *sCase {
 		} else {
 			sc.MustNot = append(sc.MustNot, "decoy_i", "decoy_s")
 		}
+	}
+	if nsFrom < depth && ti >= nsFrom {
+		sc.Kind += "+namespaced"
+		if nsFrom > 0 {
+			sc.Kind += "+ancestor-outside"
+		}
+	}
+	if modNs != "" {
+		sc.Kind += "+namespaced-mixin"
 	}
 	emit(sc.Recv + ".")
 	sc.Row = len(lines)
